@@ -229,9 +229,41 @@ def f_qaxis : Family :=
     specT := fun _ j => .branch (.le axisD zero) (.leaf (if j = 2 then one else zero))
       (.leaf (.mul (qc 0 (j + 1)) (.div one (.call1 .sqrt axisD)))) }
 
+/-! ### `quat_cast(M)`: the pivot is the LARGEST of the four candidates
+`4w²−1 = m00+m11+m22`, `4x²−1 = m00−m11−m22`, `4y²−1 = m11−m00−m22`, `4z²−1 = m22−m00−m11` (scan `w, x, y, z`, a later candidate wins only if
+strictly larger): that is what keeps the division `0.25 / pivot` well conditioned — every pivot gives `±q` in exact arithmetic (theorem
+`castprod_ok` holds on every path), only the largest one does so accurately.  Walk mode; rational leaves. -/
+def mE (c r : Nat) : E := v (c * 3 + r)
+def cand : Nat → E
+  | 0 => .add (.add (mE 0 0) (mE 1 1)) (mE 2 2)
+  | 1 => .sub (.sub (mE 0 0) (mE 1 1)) (mE 2 2)
+  | 2 => .sub (.sub (mE 1 1) (mE 0 0)) (mE 2 2)
+  | _ => .sub (.sub (mE 2 2) (mE 0 0)) (mE 1 1)
+def qcBig (k : Nat) : E := .mul (.call1 .sqrt (.add (cand k) one)) half
+def qcMult (k : Nat) : E := .div (.lit 1 4) (qcBig k)
+/-- component `j` (0 = w, 1 = x, 2 = y, 3 = z) when the pivot is candidate `k` -/
+def qcLeaf (k j : Nat) : E :=
+  if j = k then qcBig k else
+  let d01 := .sub (mE 0 1) (mE 1 0); let s01 := .add (mE 0 1) (mE 1 0)
+  let d12 := .sub (mE 1 2) (mE 2 1); let s12 := .add (mE 1 2) (mE 2 1)
+  let d20 := .sub (mE 2 0) (mE 0 2); let s20 := .add (mE 2 0) (mE 0 2)
+  let e : E := match k, j with
+    | 0, 1 => d12 | 0, 2 => d20 | 0, _ => d01
+    | 1, 0 => d12 | 1, 2 => s01 | 1, _ => s20
+    | 2, 0 => d20 | 2, 1 => s01 | 2, _ => s12
+    | _, 0 => d01 | _, 1 => s20 | _, _ => s12
+  .mul e (qcMult k)
+/-- sequential maximum scan: current best `b`, remaining candidates -/
+def qcScan (j : Nat) : Nat → List Nat → Tree
+  | b, [] => .leaf (qcLeaf b j)
+  | b, k :: ks => .branch (.lt (cand b) (cand k)) (qcScan j k ks) (qcScan j b ks)
+def f_quatcast : Family :=
+  { name := "quatcast", kind := .frac, treeMode := true, treeWalk := true, divFree := true, keys := cfgs, nOut := fun _ => 4,
+    spec := fun _ _ => zero, specT := fun _ j => qcScan j 0 [1, 2, 3] }
+
 def families : List Family :=
   [f_qmul, f_qcross, f_qmulv3, f_qmulv4, f_vmulq3, f_mat3cast, f_mat4cast, f_mat3ofprod, f_mat3orth, f_conjugate,
    f_qinverse, f_qinverse_id, f_qdot, f_qlength, f_qnormalize, f_qadd, f_qsub, f_qneg, f_qmuls, f_qdivs,
-   f_angleAxis, f_quatEuler, f_euler1, f_euler2, f_euler3, f_yawPitchRoll, f_orientate4, f_orientate3, f_eulerAngles, f_qangle, f_qaxis]
+   f_angleAxis, f_quatEuler, f_euler1, f_euler2, f_euler3, f_yawPitchRoll, f_orientate4, f_orientate3, f_eulerAngles, f_qangle, f_qaxis, f_quatcast]
 
 end Glm.Spec.C04
